@@ -1,19 +1,24 @@
 (* C05 -- SOCKS5: no data before success; afterwards every byte relayed; one outcome.
-   Only statements; each closed by `exact <lemma of Proofs/C05Proofs.v>`.
-
-   Full statement (kept visible; the Spec oracle of Spec/C05.v is its executable form):
+   Only statements; each closed by `exact <lemma of Proofs/C05*.v>`.
+   Full statement (the Spec oracle of Spec/C05.v is its executable form), PROVED as C05_oracle_holds:
      forall cfg chunks lost, <target encodable> ->
-       oracle (c_ty cfg) chunks lost (run cfg chunks lost) = true
-   It is FALSE of the faithful model on the input class of open finding C05-F1 (CONNECT answered
-   by a success reply with a domain-name bound address), see C05_connect_domain_refuted.
-   Proved below for ALL states / inputs / segmentations / loss points: the outcome is reported at
+       oracle (c_ty cfg) (fed cfg chunks) (lost && negb (raised cfg chunks)) (run cfg chunks lost) = true
+   where fed/raised say which chunks the connection delivered before an operation raised (Twisted
+   drops the connection then; nothing is delivered afterwards).  Every stream, every segmentation,
+   every loss point.  The proof is a simulation between the machine and the oracle's own state
+   (Proofs/C05Sim.v) and rests on C05_decision_is_rfc: what _parse_request_reply decides on any
+   buffer is what RFC 1928 says the bytes mean (Spec.status_of).
+   History: the statement used to be false of the faithful model on two input classes, both found
+   by this development and repaired in /repo: C05-F1 (CONNECT answered by a success reply with a
+   domain-name bound address; witness kept as C05_connect_domain_now_accepted) and C05-F2 (a reply
+   with an empty domain name, complete at 7 bytes, was not looked at before an 8th byte arrived;
+   the proof of C05_decision_is_rfc forced the hypothesis that exposed it).
+   Also proved for ALL states / inputs / segmentations / loss points: the outcome is reported at
    most once; the application is created at most once and receives data or a loss notice only
-   after it was created (so never before a success reply, the only transition that creates it);
-   the error of every reply code 0..255 is the class RFC 1928 names.  The "prompt relay" clause
-   is decided by the oracle on the correspondence run and by the theorems of C05Chunk (below,
-   when present). *)
+   after it was created; the error of every reply code 0..255 is the class RFC 1928 names. *)
 From Coq Require Import String List Bool Ascii Arith NArith.
-From TxVerif Require Import Lib.Bytes Spec.Rfc1928 Spec.C06 Spec.C05 Model.SocksTypes Model.Socks Proofs.C05Proofs Proofs.C05Relay.
+From TxVerif Require Import Lib.Bytes Spec.Rfc1928 Spec.C06 Spec.C05 Model.SocksTypes Model.SocksEnc Model.Socks Proofs.C05Proofs Proofs.C05Relay
+  Proofs.C05Status Proofs.C05Parse Proofs.C05Dec Proofs.C05Mono Proofs.C05Sim.
 Import ListNotations.
 
 Theorem C05_done_at_most_once : forall cfg chunks lost,
@@ -53,6 +58,55 @@ Print Assumptions C05_success_reply_with_payload.
 Theorem C05_step_invariant : forall cfg fuel s i a, wfst s -> good' s (fire cfg fuel s i a).
 Proof. exact fire_good. Qed.
 Print Assumptions C05_step_invariant.
+
+(* the whole oracle: every stream, every segmentation, every loss point *)
+Theorem C05_oracle_holds : forall cfg req, encode (c_ty cfg) (c_target cfg) (c_port cfg) = Some req ->
+  forall chunks lost,
+  oracle (c_ty cfg) (fed cfg chunks) (lost && negb (raised cfg chunks)) (run cfg chunks lost) = true.
+Proof. exact oracle_run. Qed.
+Print Assumptions C05_oracle_holds.
+
+Theorem C05_oracle_holds_no_raise : forall cfg req chunks lost,
+  encode (c_ty cfg) (c_target cfg) (c_port cfg) = Some req ->
+  raised cfg chunks = false ->
+  oracle (c_ty cfg) chunks lost (run cfg chunks lost) = true.
+Proof. exact oracle_run_no_raise. Qed.
+Print Assumptions C05_oracle_holds_no_raise.
+
+(* regression anchor: the former witness of C05-F1 *)
+Theorem C05_connect_domain_now_accepted :
+  let c := {| c_ty := RConnect; c_target := {| t_text := map ch [97]; t_cls := CHost |}; c_port := 80%N |} in
+  let chunks := [map ch [5; 0]; map ch [5; 0; 0; 3; 1; 97; 0; 80; 72; 73]] in
+  stream_has_domain_success chunks = true /\ raised c chunks = false /\
+  List.concat (run c chunks false) =
+    [EWrote (map ch [5; 1; 0]); EWrote (map ch [5; 1; 0; 3; 1; 97; 0; 80]);
+     EAppCreated true; EDone RProto; EAppData (map ch [72; 73])] /\
+  oracle RConnect chunks false (run c chunks false) = true.
+Proof. exact connect_domain_now_accepted. Qed.
+Print Assumptions C05_connect_domain_now_accepted.
+
+(* the reply parser against RFC 1928, for every request type and every buffer *)
+Theorem C05_decision_is_rfc : forall ty d,
+  match parse_dec ty d with
+  | PWait => reply_status ty d = SPending \/ exists r, reply_status ty d = SFailing r
+  | PErr r => reply_status ty d = SFailed r \/ reply_status ty d = SFailing r
+  | PConn rest => reply_status ty d = SConnected rest
+  | PName r rest => ty <> RConnect -> reply_status ty d = SResolved r
+  end.
+Proof. exact dec_status. Qed.
+Print Assumptions C05_decision_is_rfc.
+
+Theorem C05_parser_is_decision : forall cfg n d,
+  fire cfg (S (S (S n))) {| st := sent_request; buf := d; has_sender := false; fired := false |} got_data ANone
+  = after_parse cfg d.
+Proof. exact got_data_sent_request. Qed.
+Print Assumptions C05_parser_is_decision.
+
+(* once relaying, the meaning of the stream only grows by the bytes appended *)
+Theorem C05_connected_is_stable : forall ty d r x,
+  reply_status ty d = SConnected r -> reply_status ty (d ++ x) = SConnected (r ++ x).
+Proof. exact reply_status_conn_app. Qed.
+Print Assumptions C05_connected_is_stable.
 
 Example C05_nonvacuous :
   let cfg := {| c_ty := RConnect; c_target := {| t_text := map ch [97]; t_cls := CHost |}; c_port := 80%N |} in
